@@ -936,6 +936,14 @@ def s_tr_keys(ev, L, n): return SV(SET(KEY2), tr_keys(L.z, n.z))
 def s_list_elems(ev, M): return SV(SET(ATOM), list_elems(M.z))
 
 
+tokens = Function('tokens', Atom, _LAds)                                  # line.strip().split(): uninterpreted (C17, assumption A-tokens)
+str_startswith = Function('str_startswith', Atom, Atom, BoolSort())
+@spec('tokens')
+def s_tokens(ev, l): return SV(LIST(ATOM), tokens(l.z))
+@spec('str_startswith')
+def s_str_startswith(ev, a, b): return SV(BOOL, str_startswith(a.z, b.z))
+
+
 str_contains = Function('str_contains', Atom, Atom, BoolSort())      # `value in label` on strings: uninterpreted (C17)
 @spec('str_contains')
 def s_str_contains(ev, a, v): return SV(BOOL, str_contains(a.z, v.z))
